@@ -8,7 +8,7 @@ V: harness/cmd/c42 runs the REAL functions at their real width on instances of e
    random pairs; operands/results are logged as base-4096 limbs and TLC (spec/SafeMathTrace.tla + Limbs.tla)
    judges every record against the mathematical definition and classifies it; all classes of the small
    model must be covered."""
-import json, os, re, shutil, subprocess, time
+import concurrent.futures, json, os, re, shutil, subprocess, time
 import vlib
 
 META = {
@@ -55,57 +55,56 @@ def run_tlapm(d, stretch):
     raise vlib.HarnessError("tlapm produced no obligation count (rc=%d):\n%s" % (p.returncode, out[-3000:]))
 
 
+def prove(d):
+    for f in ("SafeMath.tla", "SafeMath_proofs.tla"):
+        shutil.copy(os.path.join(vlib.SPEC, f), d)
+    obl, dis, cmd, out, wall = run_tlapm(d, 3)
+    if dis != obl:
+        obl, dis, cmd, out, wall = run_tlapm(d, 12)
+    if dis != obl:
+        raise vlib.HarnessError("TLAPS proof of SafeMath_proofs incomplete: %d of %d obligations\n%s" % (dis, obl, out[-3000:]))
+    return obl, dis, cmd, wall
+
+
+def small_model(d):
+    clsf, pairsf = os.path.join(d, "cls_small.ndjson"), os.path.join(d, "pairs.ndjson")
+    res = vlib.run_tlc("SafeMathMC", "SafeMathMC.cfg", workers=min(8, vlib.NCPU), timeout=900, payloads={"CLS": clsf, "PAIRS": pairsf})
+    if res.violated:
+        raise vlib.HarnessError("design model SafeMathMC violates %s:\n%s" % (res.violated, res.error_state))
+    small = set()
+    for row in vlib.read_ndjson(clsf):
+        for c in row:
+            small.add(tuple(c))
+    small_pairs = sum(vlib.read_ndjson(pairsf))
+    if not small or not small_pairs:
+        raise vlib.HarnessError("SafeMathMC emitted no classes")
+    return res, small, small_pairs
+
+
 def run(ctx):
     ev = ctx.ev
     d = vlib.scratch_dir()
+    pool = concurrent.futures.ThreadPoolExecutor(3)
     try:
-        # ---- P: the proof
-        for f in ("SafeMath.tla", "SafeMath_proofs.tla"):
-            shutil.copy(os.path.join(vlib.SPEC, f), d)
-        obl, dis, cmd, out, wall = run_tlapm(d, 3)
-        if dis != obl:
-            obl, dis, cmd, out, wall = run_tlapm(d, 12)
-        if dis != obl:
-            raise vlib.HarnessError("TLAPS proof of SafeMath_proofs incomplete: %d of %d obligations\n%s" % (dis, obl, out[-3000:]))
-        thms = re.findall(r"(?m)^(?:THEOREM|LEMMA) (\w+) ==", open(os.path.join(vlib.SPEC, "SafeMath_proofs.tla")).read())
-        ver = vlib.sh(["tlapm", "--version"]).stdout.strip()
-        ev.cov(obligations=obl, discharged=dis, checker_cmd=cmd, proof_wall_s=round(wall, 2), theorems=thms,
-               trusted_base=["tlapm " + ver + " with backends Z3 / Zenon / Isabelle (SMT encoding of TLA+ \\div and %)",
-                             "hand transcription of pkg/pdfcpu/safemath/int.go into spec/SafeMath.tla (Add/Mul/MAdd/MMul)",
-                             "Go int/int64 arithmetic is two's complement wrap-around with truncated division (SafeMath!Wrap, TDiv)",
-                             "spec/Limbs.tla and the limb encoding of harness/cmd/c42 for the 64-bit binding"])
-        ev.sample({"theorem": "MMulExact", "statement": "\\A M \\in Nat \\ {0} : \\A a, b \\in Word(M) : MMul(M, a, b) = ExactMul(M, a, b)"})
-        ev.sample({"lemma": "DivLe", "statement": "M, a, b \\in Nat, a > 0 |- (b <= M \\div a) <=> (a * b <= M)"})
-
-        # ---- G: small widths, exhaustive
-        clsf, pairsf = os.path.join(d, "cls_small.ndjson"), os.path.join(d, "pairs.ndjson")
-        res = vlib.run_tlc("SafeMathMC", "SafeMathMC.cfg", workers=min(8, vlib.NCPU), timeout=900, payloads={"CLS": clsf, "PAIRS": pairsf})
-        if res.violated:
-            raise vlib.HarnessError("design model SafeMathMC violates %s:\n%s" % (res.violated, res.error_state))
-        ev.tlc(res, "SafeMathMC.cfg")
-        small = set()
-        for row in vlib.read_ndjson(clsf):
-            for c in row:
-                small.add(tuple(c))
-        small_pairs = sum(vlib.read_ndjson(pairsf))
-        if not small or not small_pairs:
-            raise vlib.HarnessError("SafeMathMC emitted no classes")
+        os.makedirs(os.path.join(d, "proof"))
+        fut_proof = pool.submit(prove, os.path.join(d, "proof"))      # P: the proof
+        fut_small = pool.submit(small_model, d)                       # G: small widths, exhaustive
 
         # ---- V: real functions at real width
         binp = vlib.build_bin("c42")
         rec = os.path.join(d, "records.ndjson")
-        args = ["--n", "2500", "--kstep", "4", "--gridrand", "8"] if ctx.quick else ["--n", "30000", "--kstep", "1", "--gridrand", "60"]
+        args = ["--n", "1800", "--kstep", "5", "--gridrand", "8"] if ctx.quick else ["--n", "30000", "--kstep", "1", "--gridrand", "60"]
         p = vlib.sh([binp, "run", "--out", rec, "--seed", str(ctx.seed)] + args, timeout=600)
         summ = json.loads([l for l in p.stdout.splitlines() if l.startswith("SUMMARY ")][-1][8:])
         rows = vlib.read_ndjson(rec)
         if len(rows) != summ["records"] or not rows:
             raise vlib.HarnessError("record count mismatch")
         nrec = len(rows)
-        for r in rows[:1] + rows[len(rows) // 2:len(rows) // 2 + 1]:
-            ev.sample(r)
+        rec_samples = rows[:1] + rows[len(rows) // 2:len(rows) // 2 + 1]
         big = set()
         validated = 0
         clsb = os.path.join(d, "cls_big.ndjson")
+        trace_res = None
         while rows:
             if os.path.exists(clsb):
                 os.unlink(clsb)
@@ -129,8 +128,25 @@ def run(ctx):
             if not res.ok:
                 raise vlib.HarnessError("SafeMathTrace did not accept the records: %s\n%s" % (res.violated, res.out[-2000:]))
             validated += len(rows)
-            ev.tlc(res, "SafeMathTrace.cfg")
+            trace_res = res
             break
+
+        obl, dis, cmd, wall = fut_proof.result()
+        thms = re.findall(r"(?m)^(?:THEOREM|LEMMA) (\w+) ==", open(os.path.join(vlib.SPEC, "SafeMath_proofs.tla")).read())
+        ver = vlib.sh(["tlapm", "--version"]).stdout.strip()
+        ev.cov(obligations=obl, discharged=dis, checker_cmd=cmd, proof_wall_s=round(wall, 2), theorems=thms,
+               trusted_base=["tlapm " + ver + " with backends Z3 / Zenon / Isabelle (SMT encoding of TLA+ \\div and %)",
+                             "hand transcription of pkg/pdfcpu/safemath/int.go into spec/SafeMath.tla (Add/Mul/MAdd/MMul)",
+                             "Go int/int64 arithmetic is two's complement wrap-around with truncated division (SafeMath!Wrap, TDiv)",
+                             "spec/Limbs.tla and the limb encoding of harness/cmd/c42 for the 64-bit binding"])
+        ev.sample({"theorem": "MMulExact", "statement": "\\A M \\in Nat \\ {0} : \\A a, b \\in Word(M) : MMul(M, a, b) = ExactMul(M, a, b)"})
+        ev.sample({"lemma": "DivLe", "statement": "M, a, b \\in Nat, a > 0 |- (b <= M \\div a) <=> (a * b <= M)"})
+        res_small, small, small_pairs = fut_small.result()
+        ev.tlc(res_small, "SafeMathMC.cfg")
+        if trace_res:
+            ev.tlc(trace_res, "SafeMathTrace.cfg")
+        for r in rec_samples:
+            ev.sample(r)
         missing = sorted(small - big)
         if missing and not ctx.violations:
             raise vlib.HarnessError("case classes of the small-width model not instantiated at the real width: %s" % missing[:10])
@@ -156,6 +172,7 @@ def run(ctx):
             raise vlib.HarnessError("pkg/pdfcpu/safemath/int.go no longer has the text SafeMath.tla was transcribed from (%s): "
                                     "the proof does not cover it; re-transcribe and update PINNED" % ", ".join(drift))
     finally:
+        pool.shutdown(wait=True)
         shutil.rmtree(d, ignore_errors=True)
 
 
